@@ -727,6 +727,10 @@ func c09Run(in *bufio.Scanner, w *bufio.Writer) {
 				c09s.hook(th)
 			}
 		case "inc.fetched":
+			if st.setx {
+				c09s.hook(th)
+				return
+			}
 			if st.stopAt.Load().(string) != th {
 				return
 			}
